@@ -61,6 +61,18 @@ def handle : Handler := fun op args =>
     some s!"ok {d.coeff} {d.exp}"
   | "mbtc2sat", [c, e] => do
     some s!"ok {mbtcToSatoshi ⟨← parseInt? c, ← parseInt? e⟩}"
+  | "txhist", [us, outs, steps] => do
+    let us ← parseList? parseInt? us
+    let outs ← parseList? parseInt? outs
+    let steps ← (steps.splitOn ";").mapM fun t =>
+      match t.splitOn ":" with
+      | ["fee"] => some TxStep.fee
+      | ["total_in"] => some TxStep.totalIn
+      | ["total_out"] => some TxStep.totalOut
+      | [k, vs] => if k = "set_unspents" ∨ k = "from_db" ∨ k = "assign" then (parseList? parseInt? vs).map TxStep.setUnspents else none
+      | ["set_out", i, v] => do some (TxStep.setOut (← parseNat? i) (← parseInt? v))
+      | _ => none
+    some ("ok " ++ ";".intercalate ((txRun ⟨us, outs⟩ steps).map fun a => match a with | some v => toString v | none => "-"))
   | "validate_unspents", [ins, us, db] => do
     let ins ← parseList? parseIn? ins
     let us ← parseList? parseOut? us
